@@ -77,6 +77,30 @@ def h_fraclapl_occd(env):
             env.jvp("orbital%d_f%d_is_directional_derivative" % (o, i), feat[0, i, 0], [("rho", (c, 0)) for c in range(nrow)], [od[o, c, 0] for c in range(nrow)], occd[o, i, 0])
 
 
+def h_nldf_occd(env, version, level, order):
+    """NLDFAuxiliaryPlan.eval_occd_full: the change of the NLDF features along a perturbation of the convolved functions f and of the
+    density data is the directional derivative of eval_rho_full's features (same contract-stub plan as link L2: interpolation
+    coefficients are unknown differentiable functions of the exponent)"""
+    from . import c01_l2
+    plan, s = c01_l2.make_plan(env, version, level, "one", 1, order)
+    f, rho = c01_l2.plan_inputs(env, plan, s)
+    of = env.arr("of", f.shape, lo="-8", hi="8")
+    orho = env.arr("orho", rho.shape, lo="-8", hi="8")
+    env.eps_zero()
+    feat, _ = c01_l2.run_fwd(plan, f, rho)
+    qg = plan.coef_order == "qg"
+    fin = f.copy() if qg else np.ascontiguousarray(f.T.copy())
+    ofin = of.copy() if qg else np.ascontiguousarray(of.T.copy())
+    ok, occd = env.attempt("eval_occd_full_returns", lambda: plan.eval_occd_full(fin, rho.copy(), ofin, orho.copy()))
+    if not ok:
+        return
+    env.check("shape", np.shape(occd) == (s.nfeat, 1), str(np.shape(occd)))
+    wrts = [("f", (a, 0)) for a in range(f.shape[0])] + [("rho", (c, 0)) for c in range(rho.shape[0])]
+    tans = [of[a, 0] for a in range(f.shape[0])] + [orho[c, 0] for c in range(rho.shape[0])]
+    for i in range(s.nfeat):
+        env.jvp("feature%d_occupation_derivative_is_directional_derivative" % i, feat[i, 0], wrts, tans, occd[i, 0])
+
+
 def tasks(tier):
     from ..run import Task
     out = []
@@ -87,4 +111,6 @@ def tasks(tier):
     for mode, ns in [("npa", 2), ("nst", 1), ("np", 1), ("ns", 2)]:
         out.append(Task("L2o/SemilocalPlan2.get_vxc/%s/nspin%d" % (mode, ns), h_plan2_vxc, dict(mode=mode, nspin=ns), mods="numint", max_paths=64))
     out.append(Task("L2o/FracLaplPlan.get_occd", h_fraclapl_occd, {}, mods="numint"))
+    for v, lv, od in [("j", "MGGA", "gq"), ("ij", "GGA", "qg"), ("i", "MGGA", "qg")] + ([("k", "MGGA", "gq"), ("j", "GGA", "qg"), ("ij", "MGGA", "gq")] if tier == "thorough" else []):
+        out.append(Task("L2o/NLDFAuxiliaryPlan.eval_occd_full/%s/%s/%s" % (v, lv, od), h_nldf_occd, dict(version=v, level=lv, order=od), mods="numint", max_paths=256, timeout_ms=60000))
     return out
